@@ -410,6 +410,25 @@ func genConfig(r *hlib.Rng, idx int) *config {
 		mapdef{"8", "out.other.", false, E(4)}, mapdef{"M", "out.other.", false, M(0)}, // maps for a name we do not serve
 	)
 	c.Names = append(c.Names, "q.w.z.test.", "x.w.z.test.", "y.x.w.z.test.", "n8.z.test.", "no8.z.test.", "nomap.z.test.", "onlye.z.test.")
+	// the unnamed map \000\000 (legacy '%lo,prefix' lines without map id): every
+	// lookup of a name without '8' / 'M' line goes there.  One family has a catch-all,
+	// the other does not, alternating with the configuration
+	if idx%2 == 0 {
+		c.Nets[0] = []subnet{mkNet("0.0.0.0/0", 0x7501), mkNet("10.0.0.0/8", 0x7502), mkNet("10.1.0.0/16", 0x7503),
+			mkNet("2001:db8::/32", 0x7504), mkNet("198.51.100.0/24", 0x7505)}
+	} else {
+		c.Nets[0] = []subnet{mkNet("::/0", 0x7501), mkNet("2001:db8::/32", 0x7502), mkNet("2001:db8:53::/48", 0x7503),
+			mkNet("10.0.0.0/8", 0x7504), mkNet("203.0.113.0/24", 0x7505)}
+	}
+	// names without '8' map: 'M' map only (u1), no map at all (u2)
+	c.Maps = append(c.Maps, mapdef{"M", "u1.z.test.", false, M(2)})
+	c.Names = append(c.Names, "u1.z.test.", "u2.z.test.")
+	addRecs("u1.z.test", 0, M(2))
+	addRecs("u2.z.test", 0)
+	addRecs("no8.z.test", 0)
+	addRecs("nomap.z.test", 0)
+	addRecs("onlye.z.test", 0)
+	addRecs("n8.z.test", 0)
 	// map isolation: assigned maps WITHOUT any subnet (odd i) between neighbours in key
 	// order (ids p1 < p2 < ... differ in the last byte) whose range points end non-null
 	// (::/0, a subnet reaching the top of the address space) or begin at the bottom
@@ -462,6 +481,10 @@ func genConfig(r *hlib.Rng, idx int) *config {
 	sort.Ints(ids)
 	for _, id := range ids {
 		for _, n := range c.Nets[id] {
+			if id == 0 {
+				fmt.Fprintf(&sb, "%%%s,%s\n", oct2(n.Loc), cidrText(un16(n.A), n.L))
+				continue
+			}
 			fmt.Fprintf(&sb, "%%%s,%s,%s\n", oct2(n.Loc), cidrText(un16(n.A), n.L), oct2(id))
 		}
 	}
@@ -790,7 +813,7 @@ func readerDiag(h *dnsserver.FBDNSDB, wire []byte, rip ip16) (e *rdiag, r *rdiag
 
 // ---------------------------------------------------------------- query generation
 
-var resolvers = []string{"198.51.100.7", "198.51.100.200", "203.0.113.9", "2001:db8:53::1", "2001:db8:99::1", "10.1.2.3"}
+var resolvers = []string{"198.51.100.7", "198.51.100.200", "203.0.113.9", "2001:db8:53::1", "2001:db8:99::1", "10.1.2.3", "2001:dba::1", "192.0.2.77"}
 
 func addrBytesFor(fam int, a ip16, src int, style int, r *hlib.Rng) []int {
 	var full []byte
@@ -1191,6 +1214,47 @@ func run(a *hlib.Args, e *hlib.Emitter) error {
 					runQuery(func(x c10case) { e.Emit(x) }, c, ci, bks, q, fmt.Sprintf("inner-ecs%d", fam), k%4 == 0, c.Text)
 					k++
 				}
+			}
+		}
+		// systematic pass: names WITHOUT client-subnet map ('M' map only / no map at
+		// all), ECS clients inside every subnet of the unnamed map (source length len,
+		// len+8, max) and outside: scope 0, the resolver decides (which itself is looked
+		// up in the unnamed map when the name has no 'M' line)
+		for ni, name := range []string{"no8.z.test.", "nomap.z.test.", "u1.z.test.", "u2.z.test."} {
+			type cl struct {
+				fam, src int
+				a        ip16
+			}
+			var cls []cl
+			for _, n := range c.Nets[0] {
+				na := un16(n.A)
+				v4 := isV4(na) && n.L >= 96
+				max, fam, off := 128, 2, 0
+				if v4 {
+					max, fam, off = 32, 1, 96
+				}
+				for _, l := range []int{n.L - off, n.L - off + 8, max} {
+					if l > max {
+						continue
+					}
+					x := na
+					for j := 0; j < 16; j++ {
+						x[j] |= byte(r.U64()) & ^maskByte(n.L, j)
+					}
+					cls = append(cls, cl{fam, l, maskTo(x, l+off)})
+				}
+			}
+			cls = append(cls, cl{1, 24, mustIP("192.0.2.0")}, cl{1, 7, mustIP("10.0.0.0")}, cl{2, 48, mustIP("2001:dba:1::")},
+				cl{2, 16, mustIP("2001::")}, cl{2, 128, mustIP("::1")})
+			for xi, x := range cls {
+				if a.Tier != "thorough" && ni == 3 && xi%2 == 1 {
+					continue
+				}
+				q := query{Name: name, UDP: 1232, HasOp: true,
+					RIP:  hlib.Ints(func() []byte { y := mustIP(resolvers[k%len(resolvers)]); return y[:] }()),
+					Opts: []qopt{{Code: 8, IsECS: true, Fam: x.fam, Src: x.src, Scope: (k % 3) * 5, Addr: addrBytesFor(x.fam, x.a, x.src, 0, r), Data: []int{}}}}
+				runQuery(func(x c10case) { e.Emit(x) }, c, ci, bks, q, fmt.Sprintf("no8map/ecs%d", x.fam), k%5 == 0, c.Text)
+				k++
 			}
 		}
 		// systematic pass: names whose ECS (or resolver) map has no subnet at all, IPv4
